@@ -143,7 +143,7 @@ class BarrelList(list):
         else:
             list_idx, rel_idx = self._translate_index(index)
             if list_idx is None:
-                raise IndexError()
+                list_idx, rel_idx = 0, 0  # before the front: clamp, as list.insert
             self.lists[list_idx].insert(rel_idx, item)
             self._balance_list(list_idx)
         return
